@@ -161,6 +161,21 @@ func (w *pathWalker) inlineCall(call *ssa.Call, callee *ssa.Function) string {
 			if n, ok := w.env.eval(args[i]); ok {
 				child.env.bind(p, n)
 			}
+			// the rule's side tables follow the argument into the parameter
+			if w.cls != nil {
+				if cl, ok := w.cls[args[i]]; ok {
+					w.cls[p] = cl
+				} else {
+					delete(w.cls, p)
+				}
+			}
+			if w.off != nil {
+				if o, ok := w.off[args[i]]; ok {
+					w.off[p] = o
+				} else {
+					delete(w.off, p)
+				}
+			}
 			// tracked state reachable through the argument (pointer to, or value
 			// of, a tracked record) is visible under the parameter's name
 			pp := w.path(args[i])
@@ -211,6 +226,18 @@ func (w *pathWalker) inlineCall(call *ssa.Call, callee *ssa.Function) string {
 	}
 	if len(rs) == 1 && rs[0].ok {
 		w.env.bind(call, rs[0].n)
+	}
+	if len(rs) == 1 {
+		if w.cls != nil {
+			if cl, ok := w.cls[ret.Results[0]]; ok {
+				w.cls[call] = cl
+			}
+		}
+		if w.off != nil {
+			if o, ok := w.off[ret.Results[0]]; ok {
+				w.off[call] = o
+			}
+		}
 	}
 	if len(rs) > 1 {
 		if w.tuple == nil {
@@ -333,10 +360,12 @@ func (w *pathWalker) walk(b, pred *ssa.BasicBlock) string {
 				if p := w.path(x.Addr); p != "" {
 					// whole-struct copy from a tracked location: copy the tracked fields
 					if u, ok := x.Val.(*ssa.UnOp); ok && u.Op == token.MUL {
-						if _, isStruct := u.Type().Underlying().(*types.Struct); isStruct {
+						_, isStruct := u.Type().Underlying().(*types.Struct)
+						_, isArray := u.Type().Underlying().(*types.Array)
+						if isStruct || isArray {
 							if q := w.path(u.X); q != "" {
 								for k, v := range w.state {
-									if strings.HasPrefix(k, q+".") {
+									if strings.HasPrefix(k, q+".") || strings.HasPrefix(k, q+"[") {
 										w.state[p+k[len(q):]] = v
 									}
 								}
@@ -389,6 +418,37 @@ func (w *pathWalker) walk(b, pred *ssa.BasicBlock) string {
 					b, okb := w.env.eval(cc.Args[1])
 					if v, isV := x.(ssa.Value); isV && oka && okb {
 						w.env.bind(v, min(a, b))
+					}
+				}
+				w.binaryModel(x, cc)
+				if bn := calleeName(cc); strings.HasPrefix(bn, "math/bits.") {
+					// pure integer functions of the standard library, folded when
+					// every operand is known
+					var as []int64
+					all := true
+					for _, a := range cc.Args {
+						n, ok := w.env.eval(a)
+						all = all && ok
+						as = append(as, n)
+					}
+					if v, isV := x.(ssa.Value); isV {
+						if rs, ok := bitsModel(bn[len("math/bits."):], as); all && ok {
+							if len(rs) == 1 {
+								w.env.bind(v, rs[0])
+							} else {
+								if w.tuple == nil {
+									w.tuple = map[ssa.Value][]optInt{}
+								}
+								var os []optInt
+								for _, r := range rs {
+									os = append(os, optInt{r, true})
+								}
+								w.tuple[v] = os
+							}
+							continue
+						}
+						delete(w.env.vals, v)
+						delete(w.tuple, v)
 					}
 				}
 				if bn := calleeName(cc); (bn == "builtin:min" || bn == "builtin:max") && len(cc.Args) > 0 {
